@@ -392,6 +392,26 @@ pub fn run(opts: &Opts) {
             roundtrip_case(&mut rep, c, "presence-pattern");
         }
     }
+    // (1b) correlated timestamps: exp / nbf / iat equal or apart by less than every plausible unit
+    {
+        let deltas: [i128; 17] = [0, 1, -1, 2, 499, 500, 999, -999, 1000, 1001, -1000, 999_999, 1_000_000, 1_000_001, 999_999_999, 1_000_000_000, -1_000_000_000];
+        let bases: [i128; 6] = [0, 1_735_689_600_000_000_000, 1_735_689_600_123_456_789, -1, Timestamp::MIN.as_nanosecond() + 2_000_000_000, Timestamp::MAX.as_nanosecond() - 2_000_000_000];
+        for &b in &bases {
+            for &d1 in &deltas {
+                for &d2 in &deltas {
+                    idx += 1;
+                    if !opts.mine(idx) {
+                        continue;
+                    }
+                    let t = |n: i128| Timestamp::from_nanosecond(n).ok();
+                    for (e, n, i) in [(t(b), t(b + d1), t(b + d2)), (t(b + d1), t(b), t(b + d2)), (t(b + d2), t(b + d1), t(b))] {
+                        let c = RegisteredClaims { exp: e, nbf: n, iat: i, ..Default::default() };
+                        roundtrip_case(&mut rep, c, "correlated-timestamps");
+                    }
+                }
+            }
+        }
+    }
     // builder API
     idx += 1;
     if opts.mine(idx) {
@@ -434,7 +454,7 @@ pub fn run(opts: &Opts) {
     json_wrapper_cases(opts, &mut rep, &mut idx);
     rep.set(
         "rule",
-        json!("(1) all 2^7 presence patterns of RegisteredClaims x strings (ASCII, escapes, NUL, U+2028, astral plane, random scalar values, 64 KiB) x timestamps (jiff MIN/MAX, epoch +-1ns, whole seconds, random at ns resolution): encode, inspect the wire form with serde_json::Value (object, only present claims, strings equal, timestamps parsed by the harness's own strict RFC 3339 parser and compared to the nanosecond for years 0000..9999), decode and compare field-wise; (2) generated JSON objects with unknown / duplicated / null / wrong-typed / deeply nested members and several timestamp spellings, plus permutations of the seven members: whenever decode succeeds every claim must equal what serde_json::Value reads for that member; (3) Json<T> payload and footer wrappers against serde_json::{to_vec, from_slice}, empty footer rejected; a third of the encodes are preceded on the same thread by an encode that must be refused after producing output (failing Serialize impl, non-string map keys); distinct = distinct claims values / input texts"),
+        json!("(1b) exp/nbf/iat correlated: six base instants x 17 x 17 offsets from 0 to +-1 s (1 ns, sub-microsecond, sub-millisecond, sub-second) in three role orders; (1) all 2^7 presence patterns of RegisteredClaims x strings (ASCII, escapes, NUL, U+2028, astral plane, random scalar values, 64 KiB) x timestamps (jiff MIN/MAX, epoch +-1ns, whole seconds, random at ns resolution): encode, inspect the wire form with serde_json::Value (object, only present claims, strings equal, timestamps parsed by the harness's own strict RFC 3339 parser and compared to the nanosecond for years 0000..9999), decode and compare field-wise; (2) generated JSON objects with unknown / duplicated / null / wrong-typed / deeply nested members and several timestamp spellings, plus permutations of the seven members: whenever decode succeeds every claim must equal what serde_json::Value reads for that member; (3) Json<T> payload and footer wrappers against serde_json::{to_vec, from_slice}, empty footer rejected; a third of the encodes are preceded on the same thread by an encode that must be refused after producing output (failing Serialize impl, non-string map keys); distinct = distinct claims values / input texts"),
     );
     rep.finish(opts);
 }
